@@ -91,15 +91,47 @@ def cmd_run(name, props, extra=''):
     # the evidence files were just rewritten against a mutant: callers must re-run the check on /repo before committing
 
 
+def cmd_reconfirm(name):
+    """Does the stored change still break its demo on /repo's CURRENT head (a later fix: commit can take the ground
+    from under it)? Records the answer in meta.json: 'superseded' changes are kept for the record but no longer count."""
+    dst = os.path.join(VERIF, 'seeded', name)
+    meta = json.load(open(os.path.join(dst, 'meta.json')))
+    head = subprocess.run(['git', '-C', '/repo', 'rev-parse', '--short', 'HEAD'], capture_output=True, text=True).stdout.strip()
+    try:
+        d = scratch(os.path.join(dst, 'patch.diff'))
+    except SystemExit as e:
+        print(name, 'PATCH DOES NOT APPLY')
+        return
+    try:
+        rc_with, _ = sh('timeout 120 %s %s' % (PY, os.path.join(dst, 'demo.py')), d)
+        rc_without, _ = sh('timeout 120 %s %s' % (PY, os.path.join(dst, 'demo.py')), '/repo')
+    finally:
+        shutil.rmtree(d, ignore_errors=True)
+    meta.setdefault('confirmed', {})['reconfirmed_at'] = head
+    if rc_with != 0 and rc_without == 0:
+        meta.pop('superseded', None)
+    else:
+        meta['superseded'] = {'repo_head': head, 'demo_with_change': rc_with, 'demo_without_change': rc_without,
+                              'note': 'on this head the change no longer makes its demo fail: a later fix: commit in /repo removed the ground it stood on'}
+    json.dump(meta, open(os.path.join(dst, 'meta.json'), 'w'), indent=1)
+    print(name, 'with=%d without=%d %s' % (rc_with, rc_without, 'SUPERSEDED' if 'superseded' in meta else 'ok'), flush=True)
+
+
 def main():
     a = sys.argv[1:]
+    if a[0] == 'reconfirm':
+        for name in (a[1:] or sorted(os.listdir(os.path.join(VERIF, 'seeded')))):
+            if os.path.exists(os.path.join(VERIF, 'seeded', name, 'meta.json')):
+                cmd_reconfirm(name)
+        return
     if a[0] == 'import':
         sys.exit(cmd_import(a[1], a[2], a[3], a[4] if len(a) > 4 else 's'))
     if a[0] == 'run':
         cmd_run(a[1], a[2:])
     if a[0] == 'runall':
         for name in sorted(os.listdir(os.path.join(VERIF, 'seeded'))):
-            if os.path.exists(os.path.join(VERIF, 'seeded', name, 'meta.json')):
+            mp = os.path.join(VERIF, 'seeded', name, 'meta.json')
+            if os.path.exists(mp) and 'superseded' not in json.load(open(mp)):
                 cmd_run(name, a[1:])
 
 
